@@ -54,6 +54,11 @@ class SMGen(Gen):
         reset_state()
         design=block.orig_design
         crossing=block.orig_crossings[0]
+        # The factor whose levels are duplicated to scale the crossing has to be a
+        # non-derived factor that is in the crossing
+        scale_factor = next((f for f in crossing if not isinstance(f.levels[0], DerivedLevel)), None)
+        if scale_one > 1 and scale_factor is None:
+            _cexit(f"MinimumTrials with only derived factors in the crossing is not supported by SMGen.")
         primary=[]
         derived=[]
         p_dc={}
@@ -92,9 +97,8 @@ class SMGen(Gen):
             else:
                 # For now, implement weighting for a non-derived factor by duplicating levels
                 for l in levels:
-                    for i in range(scale_one * l._weight):
+                    for i in range((scale_one if f is scale_factor else 1) * l._weight):
                         _levels.append(l.name)
-                scale_one = 1
 
             if d_type==None:
                 primary.append([name,_levels])
